@@ -64,6 +64,12 @@ static size_t count_of(const std::string &hay, const std::string &needle) {
 
 int main(int argc, char **argv) {
   return vh::run_main(argc, argv, [](size_t, const vh::Fields &f) -> vh::Fields {
+    if (f.size() >= 2 && f[0] == "S") {
+      // single configuration (default pipeline): used by the reference-model check
+      Side a;
+      setup(a, true);
+      return run_side(a, f[1]);
+    }
     if (f.size() < 2 || f[0] != "D") return {"bad-case"};
     Side a, b;
     setup(a, true);
